@@ -41,6 +41,7 @@ package main
 //@   requires ascii: ascii(s)
 //@   panics never
 //@   returns matches_at(buf, at, s)
+//@   ensures two: len(s) == 2 ==> (result == (at + 2 <= len(buf) && buf[at] == s[0] && buf[at + 1] == s[1]))
 //@   loop 0:
 //@     invariant fits: at + len(s) <= len(buf)
 //@     invariant prefix: forall k int :: 0 <= k && k < i ==> s[k] == buf[at + k]
@@ -70,10 +71,10 @@ package main
 //@   ensures begin: result.begin == pos
 //@   ensures fits: 0 <= result.len && pos + result.len <= len(buf)
 //@   ensures kind: result.ttype == New_TokenType_SPACE
-//@   ensures progress: pos < len(buf) && (buf[pos] == ' ' || buf[pos] == '\t' || matches_at(buf, pos, "/*") || matches_at(buf, pos, "//")) ==> result.len >= 1
+//@   ensures progress: blank_at(buf, pos) || comment_at(buf, pos) ==> result.len >= 1
 //@   loop 0:
 //@     invariant bounds: 0 <= i && pos + i <= len(buf)
-//@     invariant progress: pos < len(buf) && (buf[pos] == ' ' || buf[pos] == '\t' || matches_at(buf, pos, "/*") || matches_at(buf, pos, "//")) && i == 0 ==> (buf[pos + i] == ' ' || buf[pos + i] == '\t' || matches_at(buf, pos + i, "/*") || matches_at(buf, pos + i, "//"))
+//@     invariant progress: (blank_at(buf, pos) || comment_at(buf, pos)) ==> i >= 1 || blank_at(buf, pos + i) || comment_at(buf, pos + i)
 //@     decreases len(buf) - (pos + i)
 //@   at body loop 0: i0 = i
 //@   loop 1:
@@ -81,9 +82,11 @@ package main
 //@     decreases len(buf) - (pos + i)
 //@   loop 2:
 //@     invariant bounds: i0 <= i && pos + i <= len(buf)
+//@     invariant moved: i == i0 ==> !(pos + i0 < len(buf) && buf[pos + i0] == ' ')
 //@     decreases len(buf) - (pos + i)
 //@   loop 3:
 //@     invariant bounds: i0 <= i && pos + i <= len(buf)
+//@     invariant moved: i == i0 ==> pos + i0 < len(buf) && buf[pos + i0] == '/'
 //@     decreases len(buf) - (pos + i)
 
 //@ func scanIdentifierToken
